@@ -127,6 +127,15 @@ var c10Hostile = []string{
 	"SELECT * FROM t x JOIN t2 y ON 1 = 1",
 	"SELECT * FROM t x JOIN t2 y ON x.k",
 	"SELECT * FROM t x JOIN t2 y ON (SELECT 1 FROM dual) = y.c",
+	"SELECT * FROM t x PARALLEL JOIN t2 y ON x.k + y.c",
+	"SELECT * FROM t x PARALLEL LEFT JOIN t2 y ON x.k",
+	"SELECT * FROM t x PARALLEL RIGHT JOIN t2 y ON x.s LIKE y.c",
+	"SELECT * FROM t x PARALLEL JOIN t2 y ON x.k IN (y.c, 'a')",
+	"SELECT * FROM t x PARALLEL JOIN t2 y ON NOT x.k",
+	"SELECT * FROM t x PARALLEL HASH_JOIN t2 y ON x.k + 1 = y.c",
+	"SELECT * FROM t x PARALLEL JOIN t2 y ON x.k = y.c AND x.s",
+	"SELECT * FROM t x PARALLEL JOIN t2 y ON x.items = y.c OR x.nokey < y.nokey",
+	"SELECT * FROM t PARALLEL JOIN t2 ON t.k = t2.c",
 	"INSERT INTO t VALUES (1)",
 	"UPDATE t SET k = 1",
 	"DELETE FROM t",
@@ -250,7 +259,7 @@ func genC10Doc(t *rapid.T) map[string]any {
 
 func genC10(t *rapid.T) any {
 	c := &C10Case{}
-	c.Class = rapid.SampledFrom([]string{"valid", "valid", "mutated", "mutated", "mutated", "bytes", "hostile", "hostile", "hostile-mutated", "fault", "fault", "fault", "cyclic-format"}).Draw(t, "class")
+	c.Class = rapid.SampledFrom([]string{"valid", "valid", "mutated", "mutated", "mutated", "bytes", "hostile", "hostile", "hostile-mutated", "fault", "fault", "fault", "cyclic-format", "join-on", "join-on"}).Draw(t, "class")
 	c.Opts = genC10Opts(t)
 	c.Proc = rapid.SampledFrom([]int{0, 0, 1, 2, 4}).Draw(t, "procs")
 	switch c.Class {
@@ -277,6 +286,42 @@ func genC10(t *rapid.T) any {
 		if c.Class == "hostile-mutated" {
 			c.SQL = mutateSQL(t, c.SQL, "mut")
 		}
+	case "join-on":
+		// ON clauses of every shape (non-boolean, ill-typed, missing columns, calls, subqueries) under
+		// every join keyword: evaluation failures inside (PARALLEL) joins must come back as errors
+		c.Doc = genC10Doc(t)
+		operands := []string{"x.k", "y.c", "x.s", "x.v", "x.items", "x.nokey", "y.k", "1", "'a'", "NULL", "(x.k + y.c)", "vf_id(x.k)", "(SELECT 1 FROM dual)", "x.items[0].p", "TRUE"}
+		opd := func(l string) string { return rapid.SampledFrom(operands).Draw(t, l) }
+		var atom func(l string, depth int) string
+		atom = func(l string, depth int) string {
+			switch rapid.IntRange(0, 9).Draw(t, l+".form") {
+			case 0:
+				return opd(l + ".a")
+			case 1:
+				return opd(l+".a") + " + " + opd(l+".b")
+			case 2:
+				return opd(l+".a") + " LIKE " + opd(l+".b")
+			case 3:
+				return opd(l+".a") + " IN (" + opd(l+".b") + ", " + opd(l+".c") + ")"
+			case 4:
+				return "NOT " + opd(l+".a")
+			case 5:
+				return opd(l+".a") + " IS NULL"
+			case 6:
+				if depth > 0 {
+					return "(" + atom(l+"L", depth-1) + rapid.SampledFrom([]string{" AND ", " OR "}).Draw(t, l+".conn") + atom(l+"R", depth-1) + ")"
+				}
+				fallthrough
+			default:
+				return opd(l+".a") + " " + rapid.SampledFrom([]string{"=", "=", "<", ">=", "!="}).Draw(t, l+".op") + " " + opd(l+".b")
+			}
+		}
+		kw := rapid.SampledFrom([]string{"PARALLEL JOIN", "PARALLEL LEFT JOIN", "PARALLEL RIGHT JOIN", "PARALLEL HASH_JOIN", "PARALLEL LEFT HASH_JOIN", "JOIN", "LEFT JOIN", "HASH_JOIN", "STRAIGHT_JOIN"}).Draw(t, "kw")
+		from := "t x " + kw + " t2 y"
+		if c.Opts.Wrapped {
+			from = "root.t x " + kw + " root.t2 y"
+		}
+		c.SQL = "SELECT * FROM " + from + " ON " + atom("on", 2)
 	case "fault":
 		// a failing / panicking function under every execution strategy, and failing evaluation
 		// inside PARALLEL joins
@@ -435,11 +480,11 @@ func init() {
 		Title: "No query, option set or input can crash or hang the host process",
 		Rule: "every case runs in a child process. Classes: valid = the 33 wide constructs under all 2^3 option sets; mutated = 1-3 token mutations " +
 			"(delete, duplicate, swap, insert one of 60 keywords/brackets/quotes/qualifiers, replace, truncate) of a valid query; bytes = strings over an " +
-			"alphabet of SQL fragments, quotes, brackets, NUL, invalid UTF-8; hostile = 125 curated constants (NATURAL/CROSS/USING joins, chained UNION, " +
+			"alphabet of SQL fragments, quotes, brackets, NUL, invalid UTF-8; hostile = 134 curated constants (NATURAL/CROSS/USING joins, chained UNION, " +
 			"self- and mutually-referencing CTEs, unbalanced brackets/quotes, out-of-range FROM paths, wrong-typed function arguments, qualifiers on " +
 			"unknown/aggregate/immediate functions, DML, empty input, selector syntax in FROM) on documents of regular and irregular shape, also mutated; " +
 			"fault = a planted function that returns an error / panics with an error / panics with a string at invocation k under no qualifier, ASYNC, " +
-			"SPIN, SPINASYNC, ONCE, AWAIT and nested in another call; cyclic-format = DISTINCT / ORDER BY over select lists mixing a subquery with `*`. " +
+			"SPIN, SPINASYNC, ONCE, AWAIT and nested in another call; cyclic-format = DISTINCT / ORDER BY over select lists mixing a subquery with `*`; join-on = ON clauses of every shape (non-boolean, ill-typed, missing columns, function calls, subqueries, AND/OR trees) under every join keyword incl. PARALLEL. " +
 			"GOMAXPROCS of the child in {default,1,2,4}. Oracle: the child answers ok or error and stays alive (a panic escaping New/Exec, a process " +
 			"death confirmed in a fresh child, or a 15 s timeout confirmed in three fresh children is a violation). Non-trivial: the query gets past " +
 			"the parser, or is a mutation, or belongs to the fault / cyclic-format class.",
